@@ -191,9 +191,17 @@ impl<'a> DeclVisitor for BuildSession<'a> {
         let mut ops = Vec::new();
         let mut lens: BTreeMap<u8, usize> = BTreeMap::new();
         let n_ops = rng.range_usize(1, 7);
+        // Swarm: every session draws its own mix of operation kinds (some sessions never crash,
+        // some never corrupt, some are put/get only), so no single mix is baked into the search.
+        let mut mix = [35u32, 12, 8, 15, 30];
+        for (k, m) in mix.iter_mut().enumerate() {
+            if k != 0 && k != 4 {
+                *m *= *rng.pick(&[0u32, 1, 1, 3]);
+            }
+        }
         for i in 0..n_ops {
             let have = !lens.is_empty();
-            let w = if !have { [100, 0, 0, 0, 0] } else { [35, 12, 8, 15, 30] };
+            let w = if !have { [100, 0, 0, 0, 0] } else { mix };
             let last = i + 1 == n_ops;
             let choice = if last && have { 4 } else { rng.weighted(&w) };
             match choice {
